@@ -43,10 +43,12 @@ func c12sum(items []Item) int {
 
 // c12pre builds an arbitrary valid pre-state.
 func c12pre(allowClosed bool) *c12ring {
-	initCap := 1 + vChoice("initcap", 2)
-	capacity := 1 << uint(vChoice("caplog", vParam("c12_caplog", 4)))
-	if capacity < initCap {
-		vAssume(false) // not a valid ring
+	// capacity = initCap * 2^k; initCap 3 gives rings whose capacity is not a
+	// power of two (the initial capacity is configurable per connection)
+	initCap := 1 + vChoice("initcap", vParam("c12_ring_initcaps", 3))
+	capacity := initCap << uint(vChoice("caplog", vParam("c12_caplog", 4)))
+	if capacity > vParam("c12_maxcap", 8) {
+		vAssume(false) // beyond the bound of this run
 	}
 	q := New(initCap)
 	r := &c12ring{q: q, initCap: initCap}
